@@ -42,6 +42,20 @@ def siblings(name, names):
     return out[:2]
 
 
+def _replace_node(tree, old, new):
+    for p in ast.walk(tree):
+        for fld, val in ast.iter_fields(p):
+            if val is old:
+                setattr(p, fld, new)
+                return
+            if isinstance(val, list):
+                for k, v in enumerate(val):
+                    if v is old:
+                        val[k] = new
+                        return
+    return False
+
+
 def mutants_of(src):
     """[(description, lineno, new source)]"""
     tree = ast.parse(src)
@@ -246,6 +260,86 @@ def mutants_of(src):
                 def ap2(x, t):
                     x.orelse = []
                 emit("drop else of: if %s" % ast.unparse(n.test)[:60], n, ap2)
+        # ---- round 5: language-level traps -------------------------------------
+        if EXTRA and isinstance(n, ast.Compare) and len(n.ops) == 1 and isinstance(n.ops[0], (ast.Is, ast.IsNot)) \
+                and isinstance(n.comparators[0], ast.Constant) and n.comparators[0].value is None:
+            def ap(x, t):
+                repl = x.left if isinstance(x.ops[0], ast.IsNot) else ast.UnaryOp(op=ast.Not(), operand=x.left)
+                return _replace_node(t, x, repl)
+            emit("truthy: %s" % ast.unparse(n)[:60], n, ap)
+        if EXTRA and isinstance(n, ast.Compare) and len(n.ops) == 1 and isinstance(n.ops[0], (ast.Gt, ast.NotEq, ast.Eq)) \
+                and isinstance(n.left, ast.Call) and isinstance(n.left.func, ast.Name) and n.left.func.id == "len" \
+                and isinstance(n.comparators[0], ast.Constant) and n.comparators[0].value == 0:
+            def ap(x, t):
+                inner = x.left.args[0]
+                return _replace_node(t, x, ast.UnaryOp(op=ast.Not(), operand=inner) if isinstance(x.ops[0], ast.Eq) else inner)
+            emit("truthy: %s" % ast.unparse(n)[:60], n, ap)
+        if EXTRA and isinstance(n, ast.If) and len(n.orelse) == 1 and isinstance(n.orelse[0], ast.If):
+            def ap(x, t):
+                nxt = x.orelse[0]
+                for p_ in ast.walk(t):
+                    for fld in ("body", "orelse", "finalbody"):
+                        b = getattr(p_, fld, None)
+                        if isinstance(b, list) and x in b:
+                            x.orelse = []
+                            b.insert(b.index(x) + 1, nxt)
+                            return
+                return False
+            emit("elif->if: %s" % ast.unparse(n.orelse[0].test)[:60], n, ap)
+        if EXTRA and isinstance(n, ast.Call) and isinstance(n.func, ast.Attribute) and not in_raise(n, parents):
+            sib = {"append": "extend", "extend": "append", "popleft": "pop", "appendleft": "append", "add": "discard", "rstrip": "strip",
+                   "lstrip": "strip", "strip": "rstrip", "split": "rsplit", "setdefault": "get", "update": "setdefault"}.get(n.func.attr)
+            if sib is not None:
+                def ap(x, t, sib=sib):
+                    x.func.attr = sib
+                emit("method %s->%s: %s" % (n.func.attr, sib, ast.unparse(n)[:50]), n, ap)
+            if n.func.attr == "pop" and len(n.args) == 1 and isinstance(n.args[0], ast.Constant) and n.args[0].value == 0:
+                def ap(x, t):
+                    x.args = []
+                emit("pop(0)->pop(): %s" % ast.unparse(n)[:50], n, ap)
+        if EXTRA and isinstance(n, ast.For) and not isinstance(n.iter, ast.Call):
+            for what in ("drop-last", "drop-first", "reversed"):
+                def ap(x, t, what=what):
+                    lst = ast.Call(func=ast.Name(id="list", ctx=ast.Load()), args=[x.iter], keywords=[])
+                    if what == "reversed":
+                        x.iter = ast.Subscript(value=lst, slice=ast.Slice(step=ast.UnaryOp(op=ast.USub(), operand=ast.Constant(1))), ctx=ast.Load())
+                    elif what == "drop-last":
+                        x.iter = ast.Subscript(value=lst, slice=ast.Slice(upper=ast.UnaryOp(op=ast.USub(), operand=ast.Constant(1))), ctx=ast.Load())
+                    else:
+                        x.iter = ast.Subscript(value=lst, slice=ast.Slice(lower=ast.Constant(1)), ctx=ast.Load())
+                emit("loop %s: for %s in %s" % (what, ast.unparse(n.target), ast.unparse(n.iter)[:40]), n, ap)
+        if EXTRA and isinstance(n, ast.Call) and n.args and not in_raise(n, parents) and not (isinstance(n.func, ast.Name) and n.func.id in (
+                "isinstance", "len", "type", "print", "range", "ValueError", "TypeError", "NotImplementedError", "super", "getattr", "hasattr")):
+            for k, a in enumerate(n.args):
+                if isinstance(a, (ast.Starred,)) or (isinstance(a, ast.Constant) and a.value is None):
+                    continue
+                def ap(x, t, k=k):
+                    x.args[k] = ast.Constant(None)
+                emit("arg %d->None: %s" % (k, ast.unparse(n)[:60]), n, ap)
+        if EXTRA and isinstance(n, ast.Try) and len(n.body) > 1:
+            def ap(x, t):
+                for p_ in ast.walk(t):
+                    for fld in ("body", "orelse", "finalbody"):
+                        b = getattr(p_, fld, None)
+                        if isinstance(b, list) and x in b:
+                            b.insert(b.index(x) + 1, x.body.pop())
+                            return
+                return False
+            emit("last stmt out of try: %s" % ast.unparse(n.body[-1])[:60], n, ap)
+
+            def ap2(x, t):
+                for p_ in ast.walk(t):
+                    for fld in ("body", "orelse", "finalbody"):
+                        b = getattr(p_, fld, None)
+                        if isinstance(b, list) and x in b:
+                            b.insert(b.index(x), x.body.pop(0))
+                            return
+                return False
+            emit("first stmt out of try: %s" % ast.unparse(n.body[0])[:60], n, ap2)
+        if EXTRA and isinstance(n, ast.BoolOp) and isinstance(n.op, ast.Or) and len(n.values) == 2 and not isinstance(parents.get(id(n)), (ast.If, ast.While, ast.BoolOp)):
+            def ap(x, t):
+                return _replace_node(t, x, x.values[0])
+            emit("drop 'or' default: %s" % ast.unparse(n)[:60], n, ap)
         if isinstance(n, ast.Return) and n.value is None and isinstance(parents.get(id(n)), ast.If):
             def ap(x, t):
                 for p in ast.walk(t):
@@ -316,6 +410,14 @@ if __name__ == "__main__":
             ms = ms[:mx]
         if os.environ.get("MUTGEN_EXTRA") == "only":
             ms = [x for x in ms if x[0].startswith(tuple(os.environ.get("MUTGEN_ONLY", "field ,name ,swap stmts,delete assign").split(",")))]
+        if os.environ.get("MUTGEN_KEYS"):
+            # only the mutants listed in a muttest report (SURVIVES lines): re-run after a rule was strengthened
+            keys = set()
+            for l in open(os.environ["MUTGEN_KEYS"]):
+                f = l.rstrip("\n").split("\t")
+                if f[0] == "SURVIVES":
+                    keys.add((f[1], f[2]))
+            ms = [x for x in ms if ("%s:%d" % (rel.replace("rxsci/", ""), x[1]), x[0]) in keys]
         jobs += [(rel, d, ln, new) for d, ln, new in ms]
     print("%d mutants over %d files" % (len(jobs), len(files)), file=sys.stderr)
     with ProcessPoolExecutor(max_workers=16) as ex:
